@@ -642,19 +642,138 @@ fn run_and_judge(focus: Focus, case: &ProcCase, rep: &mut CaseReport) -> CaseRes
     judge(focus, case, &o, rep)
 }
 
+/// Real tier of C09: real children for exit codes and fatal signals, and a
+/// child reaped behind the library's back.  Anchors the simulator's status
+/// words to the kernel's.
+#[derive(Clone, Debug, Serialize, Deserialize)]
+pub enum RealCase {
+    ExitCode(u8),
+    Signal(u8),
+    ExternalReap(u8),
+}
+
+fn real_case(case: &RealCase) -> CaseResult {
+    use crate::real::*;
+    let helper = vchild_path();
+    let fail = |sig: &str, msg: String| Err(Fail::new(format!("C09:real:{}", sig), format!("{} ({:?})", msg, case)));
+    let (argv, want): (Vec<String>, ExitStatus) = match case {
+        RealCase::ExitCode(c) => (vec!["exit".into(), c.to_string()], ExitStatus::Exited(*c as u32)),
+        RealCase::Signal(s) => (vec!["selfkill".into(), s.to_string()], ExitStatus::Signaled(*s)),
+        RealCase::ExternalReap(c) => (vec!["exit".into(), c.to_string()], ExitStatus::Undetermined),
+    };
+    let mut full: Vec<std::ffi::OsString> = vec![helper.into_os_string()];
+    full.extend(argv.into_iter().map(Into::into));
+    let mut p = match Popen::create(&full, PopenConfig::default()) {
+        Ok(p) => p,
+        Err(e) => return fail("spawn-error", e.to_string()),
+    };
+    let pid = p.pid().unwrap_or(0) as i32;
+    if let RealCase::ExternalReap(_) = case {
+        let mut st = 0;
+        let r = unsafe { ip::raw_waitpid(pid, &mut st, 0) };
+        if r != pid {
+            return fail("harness", format!("external waitpid returned {}", r));
+        }
+    }
+    // first report through one of the three methods (by case parity), then every other query
+    let first = match pid % 3 {
+        0 => p.wait().map_err(|e| e.to_string()),
+        1 => {
+            let mut r = Ok(None);
+            for _ in 0..2000 {
+                r = p.wait_timeout(Duration::from_millis(20)).map_err(|e| e.to_string());
+                if !matches!(r, Ok(None)) {
+                    break;
+                }
+            }
+            r.map(|o| o.unwrap_or(ExitStatus::Other(-1)))
+        }
+        _ => {
+            let mut got = None;
+            for _ in 0..20000 {
+                got = p.poll();
+                if got.is_some() {
+                    break;
+                }
+                ip::real_sleep_ms(1);
+            }
+            Ok(got.unwrap_or(ExitStatus::Other(-1)))
+        }
+    };
+    let first = match first {
+        Ok(s) => s,
+        Err(e) => return fail("query-error", e),
+    };
+    if first != want {
+        return fail("wrong-status", format!("reported {:?}, the child's real termination cause is {:?}", first, want));
+    }
+    for (name, got) in [("poll", p.poll()), ("wait", p.wait().ok()), ("wait_timeout", p.wait_timeout(Duration::from_millis(5)).ok().flatten()), ("exit_status", p.exit_status())] {
+        if got != Some(want) {
+            return fail("status-changed", format!("{} afterwards reports {:?}, first report was {:?}", name, got, want));
+        }
+    }
+    if p.pid().is_some() {
+        return fail("pid-after-final", format!("pid() = {:?} after the status was reported", p.pid()));
+    }
+    Ok(())
+}
+
+fn real_tier_c09(ctx: &Ctx) {
+    let mut cases: Vec<RealCase> = vec![];
+    let thorough = ctx.tier == Tier::Thorough;
+    for c in 0..=255u8 {
+        if thorough || [0, 1, 2, 126, 127, 128, 129, 254, 255].contains(&c) || (c as u64 + ctx.seed) % 8 == 0 {
+            cases.push(RealCase::ExitCode(c));
+        }
+    }
+    for s in 1..=64u8 {
+        // default action terminate / core (not CHLD, CONT, STOP, TSTP, TTIN, TTOU, URG, WINCH; 32/33 are reserved by libc)
+        if [17, 18, 19, 20, 21, 22, 23, 28, 32, 33].contains(&s) {
+            continue;
+        }
+        if thorough || s <= 15 || (s as u64 + ctx.seed) % 4 == 0 {
+            cases.push(RealCase::Signal(s));
+        }
+    }
+    for c in [0u8, 3, 255] {
+        cases.push(RealCase::ExternalReap(c));
+    }
+    for (i, c) in cases.iter().enumerate() {
+        if i % ctx.nworkers != ctx.worker {
+            continue;
+        }
+        ctx.run_case("real", c, |rep| {
+            rep.nontrivial(match c {
+                RealCase::ExitCode(_) => "real|exit-code".to_string(),
+                RealCase::Signal(s) => format!("real|signal{}", if *s >= 34 { "-rt" } else { "" }),
+                RealCase::ExternalReap(_) => "real|external-reap".to_string(),
+            });
+            real_case(c)
+        });
+        crate::real::reap_all();
+    }
+}
+
 fn worker_for(focus: Focus, ctx: &Ctx) {
     quiet_panics();
+    if focus == Focus::C09 {
+        real_tier_c09(ctx);
+    }
     let thorough = ctx.tier == Tier::Thorough;
     let (name, n) = match focus {
-        Focus::C09 => ("c09-simproc", ctx.tier.pick(20_000, 1_000_000)),
-        Focus::C10 => ("c10-simproc", ctx.tier.pick(20_000, 1_000_000)),
-        Focus::C11 => ("c11-simproc", ctx.tier.pick(10_000, 300_000)),
+        Focus::C09 => ("c09-simproc", ctx.tier.pick(60_000, 1_000_000)),
+        Focus::C10 => ("c10-simproc", ctx.tier.pick(60_000, 1_000_000)),
+        Focus::C11 => ("c11-simproc", ctx.tier.pick(40_000, 300_000)),
     };
     ctx.explore("simproc", name, case_strategy(focus, thorough), n, 4000, |c, rep| run_and_judge(focus, c, rep));
 }
 
-fn replay_for(focus: Focus, _ctx: &Ctx, _engine: &str, case: &Value) -> CaseResult {
+fn replay_for(focus: Focus, _ctx: &Ctx, engine: &str, case: &Value) -> CaseResult {
     quiet_panics();
+    if engine == "real" {
+        let c: RealCase = serde_json::from_value(case.clone()).map_err(|e| Fail::new("bad-replay-file", e.to_string()))?;
+        return real_case(&c);
+    }
     let c: ProcCase = serde_json::from_value(case.clone()).map_err(|e| Fail::new("bad-replay-file", e.to_string()))?;
     let o = run_proc(&c);
     println!("{}", describe(&c, &o));
